@@ -92,7 +92,13 @@ class LiteralToken(RegexpBaseToken):
                 # the literal denotes the double nearest to its decimal text (int + float('0.frac') is an ulp off)
                 real_value = float(f"{self.value[2]}.{self.value[5] or '0'}e{self.value[7] or '0'}")
             else:
+                if int(self.value[7] or '0') > 308:
+                    # beyond the range of Excel numbers; 10 ** 30000 cannot even be written into the class
+                    raise E2PyclParserException(f'Numeric literal {self.value[0]} is out of range')
                 real_value = int(self.value[2]) * 10 ** int(self.value[7] or '0')
+            if real_value == float('inf'):
+                # repr() would put the bare name inf into the class
+                raise E2PyclParserException(f'Numeric literal {self.value[0]} is out of range')
             real_value = repr(real_value)
         elif self.value[1] or self.value[0] == '""':
             real_value = repr(self.value[1])
